@@ -62,7 +62,7 @@ def cli_conformance(cases, limit=60):
 
 
 def run_e1(prop, tier, tasks, task_fn, assumptions, wall_cap, coverage_extra=None,
-           level="model_checking", conformance=True):
+           level="model_checking", conformance=True, extra_violations=None):
     """tasks: list of task tuples WITHOUT the deadline (appended here). task_fn returns the dict
     produced by props' run_task. Returns exit code."""
     t0 = time.time()
@@ -101,6 +101,7 @@ def run_e1(prop, tier, tasks, task_fn, assumptions, wall_cap, coverage_extra=Non
         ps["states"] += r["states"]
         ps["transitions"] += r["transitions"]
         viols.extend(r["violations"])
+    viols.extend(extra_violations or [])
     # dedup violations by class: keep the shortest history
     best = {}
     for v in viols:
